@@ -3,5 +3,4 @@ CONSTANTS
   Caps = {1, 2, 4}
   Depth = 7
   Nil = Nil
-INVARIANT Export
 CHECK_DEADLOCK FALSE
